@@ -224,7 +224,8 @@ def policies : List ClassPolicy := open Policy in [
   { cls := "Connector", ownerChecks := ["loop_"],
     setup := ["setNewConnectionCallback"], notThreadSafe := [],
     fields := [("loop_", immutable), ("serverAddr_", immutable), ("connect_", atomic), ("state_", confined),
-      ("channel_", confined), ("newConnectionCallback_", immutable), ("retryDelayMs_", confined)] },
+      ("channel_", confined), ("newConnectionCallback_", immutable), ("retryDelayMs_", confined),
+      ("retryTimer_", confined)] },
   { cls := "TimerQueue", ownerChecks := ["loop_"], setup := [], notThreadSafe := [],
     fields := [("loop_", immutable), ("timerfd_", immutable), ("timerfdChannel_", confined),
       ("timers_", confined), ("activeTimers_", confined), ("callingExpiredTimers_", confined),
